@@ -10,6 +10,12 @@ tie:       the testdata plugin of the tree under check is RUN (scratch dir, dele
            thorough: all vectors
 cross:     an independent Python reference of the same reading (x_vectors.Ref) is evaluated on every vector; checker and
            reference disagreeing is reported as a framework problem, not as a repository violation
+history:   the output directory's prior content is part of a run: lib/c17_history.py builds small sub-models of the committed
+           lsp.json (a few methods and what they reach), runs the real command line for m0 into a directory D, evolves the model
+           (an enumeration gains / loses supportsCustomValues - chosen so that bodies the plugin really emits keep their bytes and
+           change validity; a method is dropped / added; thorough: a property becomes required / optional, there-and-back), runs
+           the plugin for m1 into the SAME D and into a fresh F; D must equal F (file set and bytes) and every file of D must carry
+           its validity under m1 - judged by the same verified checker against the metamodel translated from m1 (mm_wf re-proved)
 also:      file-name format; coverage (every message class of the metamodel has a True vector: C17Cover.v, kernel-checked);
            every selected True vector is accepted by the real converter (r_vectors.py, as tests/python/test_generated_data.py)
 """
@@ -20,13 +26,20 @@ import random
 import re
 import time
 
+import c17_history as H
 import vcommon as V
 import x_vectors as X
 
 RULE = ("vectors = the files the testdata plugin writes for the current tree; quick: up to 10 per (message class, label) stratum "
         "(328 strata, seeded) evaluated by the verified checker in Coq, plus every vector on which the Python reference "
         "contradicts the label; thorough: every vector in Coq; distinct = distinct file (class, label, content hash); "
-        "each is a full JSON-RPC message, non-trivial by construction (envelope + payload of the class)")
+        "each is a full JSON-RPC message, non-trivial by construction (envelope + payload of the class). "
+        "History stream: seeded sub-models (1 target method whose vectors contain an enumeration's custom value + 1-2 bystander methods, "
+        "with everything they reach) x evolutions (enum-open / enum-close selected so that >= 1 emitted body keeps its bytes and flips "
+        "validity, bystander dropped / added; thorough also property required / optional and m0,m1,m0): the plugin is re-run into the "
+        "directory populated for the previous model; every file then on disk is compared with a fresh-directory run (names and bytes) "
+        "and judged by the verified checker under the evolved metamodel (quick: differing / flipped / new files first, then a "
+        "stratified sample, up to 600 per step; thorough: all); distinct = (history, step, file)")
 
 SHARD = 300
 PER_STRATUM = 10
@@ -159,10 +172,15 @@ def run(chk):
         "class naming rule of Strict.msg_classes (typeName with Request/Response/Notification suffix), cross-checked against the Python reference's table",
         "`Eval vm_compute` output of coqc is read for the list of disagreeing vectors (shards where nothing disagrees additionally carry the kernel-checked lemma shard_agrees)",
         "lib/r_vectors.py runs the real converter exactly as tests/python/test_generated_data.py does",
+        "lib/c17_history.py: construction of the sub-models / evolved models from lsp.json (restriction to methods and their reachable "
+        "declarations, the edit operations), the directory comparison, and lib/x_mm.py on each evolved model",
     ]
     chk.assumptions = ["quantifier: the vectors emitted by the testdata plugin for the committed metamodel; quick tier evaluates a stratified "
                        "sample in Coq and all vectors by the (unverified) Python reference, thorough evaluates all in Coq",
-                       "no extraction: the checker runs inside Coq (vm_compute)"]
+                       "no extraction: the checker runs inside Coq (vm_compute)",
+                       "histories: the prior state of the output directory is what the plugin itself wrote for an earlier (sub-)model of lsp.json, "
+                       "2 two-step histories in the quick tier, 9 (two- and three-step) in the thorough tier; other prior states (foreign files, "
+                       "hand-edited vectors) are not exercised"]
     chk.rule = RULE
     timings = {}
     failed = []
@@ -365,6 +383,11 @@ def run(chk):
                     "checker_verdict": CODE_TEXT[code[idx_of[fn]]], "reference_verdict": ref_why[idx_of[fn]] or "valid",
                     "expected": "converter.structure(json, lsprotocol.types.<class>) succeeds"}, key="rejected:" + fn[:-5])
 
+        # ---- history stream: the plugin re-run into the directory of an earlier metamodel
+        t0 = time.time()
+        history_stream(chk, report, names, vdir)
+        timings["history_s"] = round(time.time() - t0, 1)
+
         # evidence
         for i in sel[:: max(1, len(sel) // 5)][:5]:
             fn, cls, lab = entries[i]
@@ -388,10 +411,71 @@ def run(chk):
     chk.extra["timings"] = timings
 
 
+def history_stream(chk, report, names, vdir):
+    doc = json.load(open(os.path.join(V.REPO, "generator", "lsp.json")))
+    hists = H.plan(doc, names, vdir, chk.seed, chk.tier)
+    chk.obligation("history:plan", bool(hists), "%d histories" % len(hists))
+    if not hists:
+        return
+    res = H.run_all(hists, doc, chk.seed, "", H.MAX_EVAL_QUICK if chk.tier == "quick" else H.MAX_EVAL)
+    summary = []
+    flipping = 0
+    for r in res:
+        for name, ok, note in r["obligations"]:
+            chk.obligation(name, ok, note)
+        for key in r.get("judged", []):
+            chk.count(("history",) + tuple(key))
+        steps = r["steps"]
+        real = [p for p in r["problems"] if not p.get("framework")]
+        order = {"history: mislabelled": 0, "history: the testdata": 0, "history: stale": 1, "history: vector": 2, "history: file content": 3, "history: file name": 4}
+        real.sort(key=lambda p: min([v for k, v in order.items() if p["kind"].startswith(k)] or [9]))
+        clean = not real and all(s.get("stale", 0) == 0 and s.get("missing", 0) == 0 and s.get("differing", 0) == 0 for s in steps)
+        flips_seen = sum(s.get("same_body_other_label", 0) for s in steps)
+        flipping += 1 if flips_seen else 0
+        chk.obligation("history:%s" % r["name"], clean,
+                       "; ".join("step %d: %d files on disk = fresh run: %s, %d judged in Coq, %d agree, %d bodies kept with the other label, %d gone, %d new"
+                                 % (s["step"], s.get("files_on_disk", 0), s.get("stale", 0) + s.get("missing", 0) + s.get("differing", 0) == 0,
+                                    s.get("judged_in_coq", 0), s.get("label_agrees", 0), s.get("same_body_other_label", 0), s.get("files_gone", 0), s.get("files_new", 0))
+                                 for s in steps if s["step"] > 0))
+        if real:        # the first mislabelled / stale / missing file of the history is the replay
+            p = dict(real[0])
+            p["other_problems_in_this_history"] = [{"kind": q["kind"], "file": q.get("file"), "count": q.get("count")} for q in real[1:6]]
+            p["directory_after_failing_step"] = next((s for s in steps if s["step"] == p.get("failing_step")), None)
+            report(p)
+        for p in [p for p in r["problems"] if p.get("framework")][:2]:
+            q = {k: v for k, v in p.items() if k != "framework"}
+            report(q, no_input=True)
+        summary.append({"name": r["name"], "expected_label_flips": r["plan"].get("expected_label_flips"), "steps": steps})
+    # non-vacuity: at least one evolution really changed the validity of a body whose bytes stayed the same
+    chk.obligation("history:some-evolution-flips-the-label-of-an-unchanged-body", flipping > 0, "%d of %d histories" % (flipping, len(res)))
+    chk.extra["history_stream"] = summary
+    if summary:
+        chk.sample({"stream": "history", "name": summary[0]["name"], "steps": summary[0]["steps"]})
+
+
 # ------------------------------------------------------------------------------------------------ replay
+def replay_history(r):
+    doc = json.load(open(os.path.join(V.REPO, "generator", "lsp.json")))
+    os.makedirs(V.GEN, exist_ok=True)
+    os.makedirs(V.PROPS_OUT, exist_ok=True)
+    res = H.run_history(0, r["history"], doc, 0, "R")
+    real = [p for p in res["problems"] if not p.get("framework")]
+    for s in res["steps"]:
+        print("step", json.dumps(s))
+    for p in real[:5]:
+        print("STILL FAILS:", p["kind"], "|", p.get("file"), "|", p.get("checker_verdict", ""), p.get("failing_clause", ""))
+    if not real:
+        print("after every step the directory equals a fresh-directory run and every file carries its validity under the step's metamodel")
+    return 1 if real else 0
+
+
 def replay(path):
     r = json.load(open(path))
     kind = r.get("kind", "")
+    if "history" in r and isinstance(r["history"], dict):
+        with V.build_lock():
+            V.ensure_theory()
+        return replay_history(r)
     if "file" not in r and "class" not in r:
         print("no concrete input recorded:", json.dumps(r)[:2000])
         return 1
